@@ -1478,6 +1478,7 @@ func (s *State) execReturn(r *ssa.Return) ([]*State, bool) {
 		return nil, false
 	}
 	// top-level return: postconditions
+	c.Obls = append(c.Obls, &Obligation{Name: fmt.Sprintf("%s/reach@return:%s", c.Key, c.posOf(r.Pos())), Kind: "reach", Func: c.Key, Desc: "this return is reachable on at least one path (otherwise its postconditions hold vacuously)", Pos: c.posOf(r.Pos()), Path: s.Path, Goal: "false", ExpectSat: true, PathID: s.PathID})
 	s.runGhost(fr, "return")
 	env := c.funcEnv(s, fr, true)
 	sig := fr.Fn.Signature
@@ -1537,7 +1538,10 @@ func (s *State) runGhost(fr *Frame, anchor string) {
 				panic(evalErr(fmt.Sprintf("%s:%d: %v", g.File, g.Line, err)))
 			}
 			c.assume("assume in " + c.Key + ": " + g.Src)
+			before := s.Path
 			s.assert(t)
+			// an assumption that contradicts what is known would make the rest of the path vacuous
+			c.Obls = append(c.Obls, &Obligation{Name: fmt.Sprintf("%s/vac-assume@%s", c.Key, sanitize(anchor)), Kind: "vac", Func: c.Key, Desc: "assumptions still satisfiable after `assume " + g.Src + "`", Pos: fmt.Sprintf("%s:%d", g.File, g.Line), Path: s.Path, Before: before, Goal: "false", ExpectSat: true, PathID: s.PathID})
 		case "set":
 			v, err := env.evalAny(g.E)
 			if err != nil {
